@@ -370,12 +370,8 @@ def arm(fault, phase='main'):
 # ------------------------------------------------------------------------------------------------
 # observers (trusted base: pysam as reader of BAM validity)
 
-def classify_status(text):
-    """Content class of the status file.  'ok' = the text reports success: non-empty and it neither says
-    unfinished / fail nor that jobs were only submitted (documented in docs/C20.md)."""
-    if text is None:
-        return 'none'
-    t = text.strip().lower()
+def _classify_line(t):
+    t = t.strip().lower()
     if not t:
         return 'none'
     if 'unfinished' in t:
@@ -385,6 +381,21 @@ def classify_status(text):
     if 'submit' in t:
         return 'other'
     return 'ok'
+
+
+def classify_status(text):
+    """Content class of the status file.  A line reports success when it is non-empty and says neither unfinished / fail
+    nor that jobs were only submitted.  The FILE reports success ('ok') when ANY of its lines does: whoever opens or greps
+    the file sees the success message, wherever it stands (the tagger itself always writes a one-line file, for which this
+    is the plain reading).  Otherwise the class of the last non-empty line (documented in docs/C20.md)."""
+    if text is None:
+        return 'none'
+    classes = [c for c in (_classify_line(l) for l in text.splitlines()) if c != 'none']
+    if not classes:
+        return 'none'
+    if 'ok' in classes:
+        return 'ok'
+    return classes[-1]
 
 
 def read_status(out_path):
